@@ -628,6 +628,12 @@ def ill_groups():
             "{ z: C }", "{ z: C.a }", "C.to_string()", "C.a.to_string()", "if C == C { 1 } else { 2 }", "C.a + C.a", "C.nope", "C.a.nope",
             "C.get(0)", "C.push(3)", "C.a.push(\"t\")", "C.len", "C.0", "C.a.0", "C()", "C.a()", "let v = C; v.a = 5; C.a"]
     g.append(("const_uses", [cdecl + "const C: %s = %s;\nfn f() { let r = %s; }" % (t, l, u) for t, l in consts for u in uses]))
+    # 8 match arm sequences: every sequence of <= 3 arms (and the 4-arm sequences that start with a repeated arm) over
+    #   unguarded / guarded variant arms and unguarded / guarded `_` arms of a three-variant enum
+    arms = ["A => 1,", "A if c => 2,", "B(x) => x,", "B(x) if x > 0 => 3,", "C => 4,", "_ => 5,", "_ if c => 6,"]
+    seqs = [[a] for a in arms] + [[a, b] for a in arms for b in arms] + [[a, b, d] for a in arms for b in arms for d in arms]
+    seqs += [[a, a, b, d] for a in arms[:5] for b in arms for d in arms]
+    g.append(("match_arms", ["enum E { A, B(i32), C }\nfn f(e: E, c: bool) -> i32 { match e { %s } }" % " ".join(q) for q in seqs]))
     g.append(("const_from_const", [cdecl + "const C: %s = %s;\nconst D: i32 = %s;\nfn f() -> i32 { D }" % (t, l, u)
                                    for t, l in consts for u in ["C.a", "C.n.c", "C.a.b.len()", "g(C.a)", "match C { _ => 1 }", "C.len()"]]))
     return g
